@@ -25,6 +25,7 @@ import (
 	"seata.apache.org/seata-go/pkg/datasource/sql/types"
 	"seata.apache.org/seata-go/pkg/datasource/sql/undo"
 	"seata.apache.org/seata-go/pkg/datasource/sql/undo/base"
+	undoparser "seata.apache.org/seata-go/pkg/datasource/sql/undo/parser"
 
 	"verifh/hutil"
 )
@@ -83,7 +84,11 @@ type Case struct {
 	DecErr   string   `json:"dec_err,omitempty"`
 	DecLog   *Log     `json:"declog,omitempty"`
 	Oracle   string   `json:"oracle"` // "" = the property's statement holds on this run
-	What     string   `json:"what,omitempty"`
+	// inside the region of a known finding: the outcome the finding records for this input, and a
+	// message when the run shows another one (always a violation)
+	Expect          string `json:"expect,omitempty"`
+	RegionViolation string `json:"region_violation,omitempty"`
+	What            string `json:"what,omitempty"`
 }
 type Out struct {
 	Cases     []Case           `json:"cases"`
@@ -94,7 +99,13 @@ type Out struct {
 }
 
 // ---------------------------------------------------------------- capturing connection
-type capConn struct{ args []driver.Value }
+// capConn keeps the arguments of the undo_log INSERT. The driver consumes them at the END of Exec:
+// onExec (if set) runs first, then ctx/info are copied (snapCtx/snapInfo); args keeps the slices themselves.
+type capConn struct {
+	args              []driver.Value
+	onExec            func()
+	snapCtx, snapInfo []byte
+}
 type capStmt struct{ c *capConn }
 
 func (c *capConn) Prepare(q string) (driver.Stmt, error) { return &capStmt{c}, nil }
@@ -104,6 +115,17 @@ func (s *capStmt) Close() error                          { return nil }
 func (s *capStmt) NumInput() int                         { return -1 }
 func (s *capStmt) Exec(a []driver.Value) (driver.Result, error) {
 	s.c.args = a
+	if s.c.onExec != nil {
+		s.c.onExec()
+	}
+	if len(a) >= 4 {
+		if b, ok := a[2].([]byte); ok {
+			s.c.snapCtx = append([]byte{}, b...)
+		}
+		if b, ok := a[3].([]byte); ok {
+			s.c.snapInfo = append([]byte{}, b...)
+		}
+	}
 	return driver.RowsAffected(1), nil
 }
 func (s *capStmt) Query(a []driver.Value) (driver.Rows, error) { return nil, fmt.Errorf("no query") }
@@ -698,7 +720,14 @@ func expectedLog(xid string, branch uint64, before, after []*types.RecordImage) 
 
 var mgr = base.NewBaseUndoLogManager()
 
-func flushReal(xid string, branch uint64, before, after []*types.RecordImage) (cls, det string, ctx, info []byte) {
+// bytes handed to the driver by the previous flush: the slice itself and a private copy taken when the
+// driver consumed it; a later FlushUndoLog must not change them
+var held struct {
+	alias, copy []byte
+	idx         int
+}
+
+func flushReal(xid string, branch uint64, before, after []*types.RecordImage, onExec func()) (cls, det string, ctx, info, alias []byte) {
 	tc := &types.TransactionContext{XID: xid, BranchID: branch, RoundImages: &types.RoundRecordImage{}}
 	for _, b := range before {
 		tc.RoundImages.AppendBeofreImage(b)
@@ -706,16 +735,46 @@ func flushReal(xid string, branch uint64, before, after []*types.RecordImage) (c
 	for _, a := range after {
 		tc.RoundImages.AppendAfterImage(a)
 	}
-	conn := &capConn{}
-	cls, det = hutil.Guard(30*time.Second, func() error { return mgr.FlushUndoLog(tc, conn) })
+	conn := &capConn{onExec: onExec}
+	cls, det = hutil.Guard(60*time.Second, func() error { return mgr.FlushUndoLog(tc, conn) })
 	if cls == hutil.OutOK {
 		if conn.args == nil {
-			return "noinsert", "", nil, nil
+			return "noinsert", "", nil, nil, nil
 		}
-		ctx, _ = conn.args[2].([]byte)
-		info, _ = conn.args[3].([]byte)
+		ctx, info = conn.snapCtx, conn.snapInfo
+		alias, _ = conn.args[3].([]byte)
 	}
-	return cls, det, ctx, info
+	return cls, det, ctx, info, alias
+}
+
+// what the Lz4 compressor itself does with the serialized log: the outcome finding C08-lz4 records
+func lz4Expect(ser string, exp *undo.BranchUndoLog) string {
+	p, err := undoparser.GetCache().Load(ser)
+	if err != nil {
+		return ""
+	}
+	out := ""
+	hutil.Guard(60*time.Second, func() error {
+		plain, err := p.Encode(exp)
+		if err != nil {
+			return nil
+		}
+		plain = append([]byte{}, plain...)
+		c := compressor.CompressorType("Lz4").GetCompressor()
+		y, err := c.Compress(plain)
+		if err != nil {
+			out = "refused"
+			return nil
+		}
+		back, err := c.Decompress(y)
+		if err != nil || !bytes.Equal(back, plain) {
+			out = "undecodable"
+			return nil
+		}
+		out = "ok"
+		return nil
+	})
+	return out
 }
 
 func decodeReal(ctx, info []byte) (cls, det string, l *undo.BranchUndoLog) {
@@ -743,6 +802,19 @@ func trim(s string) string {
 func (o *Out) validCase(r *hutil.Rng, i int, em []emit) {
 	cfg := genCfg(r, i)
 	pbSafe := cfg.Ser == "protobuf" && r.Chance(2, 3)
+	xid, branch, before, after := genLog(r, i, em, pbSafe)
+	if cfg.Enable && cfg.CType == "Lz4" && r.Chance(1, 2) { // a payload lz4 cannot shrink
+		big := make([]byte, 20000+r.Intn(100000))
+		for k := range big {
+			big[k] = byte(r.Next())
+		}
+		before[0].Rows = append(before[0].Rows, types.RowImage{Columns: []types.ColumnImage{{KeyType: types.IndexTypePrimaryKey, ColumnName: "id", ColumnType: types.JDBCTypeBigInt, Value: int64(1)},
+			{ColumnName: "photo", ColumnType: types.JDBCTypeLongVarBinary, Value: big}}})
+	}
+	o.runValid(cfg, xid, branch, before, after, expectedLog(xid, branch, before, after))
+}
+
+func genLog(r *hutil.Rng, i int, em []emit, pbSafe bool) (string, uint64, []*types.RecordImage, []*types.RecordImage) {
 	nitems := 1 + r.Intn(2)
 	var before, after []*types.RecordImage
 	for k := 0; k < nitems; k++ {
@@ -786,39 +858,90 @@ func (o *Out) validCase(r *hutil.Rng, i int, em []emit) {
 	}
 	xid := []string{"192.168.0.1:8091:2000042948", "xid-1", "全局", ""}[r.Intn(4)]
 	branch := []uint64{0, 1, 2000042936, math.MaxInt64, 9007199254740993}[r.Intn(5)]
-	exp := expectedLog(xid, branch, before, after)
-	o.runValid(cfg, xid, branch, before, after, exp)
+	return xid, branch, before, after
 }
 
 func (o *Out) runValid(cfg Cfg, xid string, branch uint64, before, after []*types.RecordImage, exp *undo.BranchUndoLog) {
+	o.runValidHook(cfg, xid, branch, before, after, exp, nil)
+}
+
+// onExec runs inside the driver's Exec of the undo_log INSERT, before the driver consumes its arguments
+func (o *Out) runValidHook(cfg Cfg, xid string, branch uint64, before, after []*types.RecordImage, exp *undo.BranchUndoLog, onExec func()) {
 	setCfg(cfg)
 	c := Case{Stream: "valid", InModel: true, Cfg: cfg, Log: canonLog(exp), Features: features(cfg, exp), Dec: "-"}
-	cls, det, ctx, info := flushReal(xid, branch, before, after)
+	known := cfg.Ser == "json" || cfg.Ser == "protobuf"
+	if known && cfg.Enable && cfg.CType == "Lz4" {
+		c.Expect = lz4Expect(cfg.Ser, exp)
+	}
+	cls, det, ctx, info, alias := flushReal(xid, branch, before, after, onExec)
+	if onExec != nil {
+		setCfg(cfg)
+	}
+	// the previous flush's bytes must have survived this one
+	if held.alias != nil && !bytes.Equal(held.alias, held.copy) && held.idx < len(o.Cases) && o.Cases[held.idx].Oracle == "" {
+		o.Cases[held.idx].Oracle = "the rollback_info bytes this flush handed to the driver were overwritten by a later FlushUndoLog (the returned slice aliases reused memory)"
+	}
+	held.alias = nil
 	c.Flush, c.FlushErr = cls, trim(det)
 	c.Ctx, c.Info = hex.EncodeToString(ctx), hex.EncodeToString(info)
-	known := cfg.Ser == "json" || cfg.Ser == "protobuf"
+	observed := ""
 	switch cls {
 	case hutil.OutPanic, hutil.OutDiverged:
 		c.Oracle = "FlushUndoLog " + cls + ": " + trim(det)
+		observed = cls
 	case hutil.OutErr:
 		if known {
 			c.Oracle = "FlushUndoLog failed on a supported log: " + trim(det)
 		}
+		observed = "refused"
 	case "noinsert":
 		c.InModel = false
 	case hutil.OutOK:
-		c.Trees = decompressAll(info)
-		o.hypothesis(info)
+		held.alias, held.copy, held.idx = alias, append([]byte{}, alias...), len(o.Cases)
+		if len(info) < 1<<16 {
+			c.Trees = decompressAll(info)
+			o.hypothesis(info)
+		} else {
+			c.InModel = false
+		}
 		dcls, ddet, dl := decodeReal(ctx, info)
 		c.Dec, c.DecErr = dcls, trim(ddet)
 		if dcls == hutil.OutOK {
 			c.DecLog = canonLog(dl)
 			c.Oracle = logEq(exp, dl)
+			observed = "ok"
 		} else {
 			c.Oracle = "the log written by FlushUndoLog does not read back (" + dcls + "): " + trim(ddet)
+			observed = "undecodable"
 		}
 	}
+	if c.Expect != "" && observed != "" && observed != c.Expect {
+		c.RegionViolation = fmt.Sprintf("compress type Lz4: the Lz4 compressor's own behaviour on this log is %q (finding C08-lz4), FlushUndoLog/read-back showed %q: %s %s",
+			c.Expect, observed, c.FlushErr, c.DecErr)
+	}
+	if len(c.Info) > 1<<17 { // keep the output small: big payloads are reproducible from the seed
+		c.Info = c.Info[:1<<17]
+	}
 	o.Cases = append(o.Cases, c)
+}
+
+// two branches flushing at the same time: B's FlushUndoLog runs while A's INSERT has been issued but the
+// driver has not consumed A's arguments yet. A must still store A's log.
+func (o *Out) interleavedCase(r *hutil.Rng, i int, em []emit) {
+	cfg := Cfg{Ser: "json", Enable: i%3 != 0, CType: []string{"None", "zip", "", "Gzip", "Sevenz", "Zstd"}[i%6], Threshold: "64k"}
+	if i%7 == 6 {
+		cfg.Ser = "protobuf"
+	}
+	xa, ba, befa, afta := genLog(r.Fork(1), i, em, false)
+	xb, bb, befb, aftb := genLog(r.Fork(2), i+1, em, false)
+	expA, expB := expectedLog(xa, ba, befa, afta), expectedLog(xb+"-b", bb/2+1, befb, aftb)
+	n := len(o.Cases)
+	o.runValidHook(cfg, xa, ba, befa, afta, expA, func() {
+		o.runValid(cfg, xb+"-b", bb/2+1, befb, aftb, expB)
+	})
+	for k := n; k < len(o.Cases); k++ {
+		o.Cases[k].What = "interleaved: the second log is flushed while the first INSERT is in the driver"
+	}
 }
 
 // ---------------------------------------------------------------- malformed stream
@@ -959,6 +1082,7 @@ func Run(args map[string]string) {
 	nm := hutil.ArgInt(args, "malformed", 200)
 	ng := hutil.ArgInt(args, "garbage", 100)
 	ne := hutil.ArgInt(args, "e2e", 0)
+	ni := hutil.ArgInt(args, "interleaved", 0)
 	r := hutil.NewRng(seed)
 	o := &Out{Cases: []Case{}, HypFail: []string{}, SQLTypes: map[string]int{}}
 	em := emits()
@@ -975,10 +1099,14 @@ func Run(args map[string]string) {
 		o.SQLTypes[string(b)] = int(st)
 	}
 	o.knownProtobuf()
+	o.knownLz4(r.Fork(7))
 	// every emitted (type, kind) x every boundary value at least once: a deterministic sweep first
 	o.sweep(r.Fork(1), em)
 	for i := 0; i < n; i++ {
 		o.validCase(r.Fork(uint64(1000+i)), i, em)
+	}
+	for i := 0; i < ni; i++ {
+		o.interleavedCase(r.Fork(uint64(3000000+i)), i, em)
 	}
 	for i := 0; i < nm; i++ {
 		o.malformedCase(r.Fork(uint64(500000+i)), i+int(seed)*7)
@@ -1039,6 +1167,25 @@ func (o *Out) sweep(r *hutil.Rng, em []emit) {
 				one(e, genTime(r))
 			}
 		}
+	}
+}
+
+// the inputs of finding C08-lz4: a small log and a log dominated by 100 kB of high-entropy bytes (both refused by
+// Lz4.Compress), and a 300 kB blank-padded text (compressed beyond the 100x cap of Lz4.Decompress)
+func (o *Out) knownLz4(r *hutil.Rng) {
+	big := make([]byte, 100000)
+	for k := range big {
+		big[k] = byte(r.Next())
+	}
+	for k, v := range []interface{}{int64(7), big, strings.Repeat(" ", 300000)} {
+		key := types.ColumnImage{KeyType: types.IndexTypePrimaryKey, ColumnName: "id", ColumnType: types.JDBCTypeBigInt, Value: int64(k + 1)}
+		col := types.ColumnImage{ColumnName: "payload", ColumnType: []types.JDBCType{types.JDBCTypeInteger, types.JDBCTypeLongVarBinary, types.JDBCTypeLongVarchar}[k], Value: v}
+		b := &types.RecordImage{TableName: "t_lz4", SQLType: types.SQLTypeDelete, Rows: []types.RowImage{{Columns: []types.ColumnImage{key, col}}}}
+		a := &types.RecordImage{TableName: "t_lz4", SQLType: types.SQLTypeDelete, Rows: []types.RowImage{}}
+		before, after := []*types.RecordImage{b}, []*types.RecordImage{a}
+		cfg := Cfg{Ser: "json", Enable: true, CType: "Lz4", Threshold: "64k"}
+		o.runValid(cfg, "lz4", uint64(k+1), before, after, expectedLog("lz4", uint64(k+1), before, after))
+		o.Cases[len(o.Cases)-1].What = "C08-lz4"
 	}
 }
 
